@@ -645,6 +645,46 @@ pub fn channel_charge(rng: &mut Rng) -> (Vec<Finding>, u64) {
     (f, expect.len() as u64)
 }
 
+/// Two distinct types with the same `std::any::type_name` (items of the same name in two block scopes of one
+/// function, alone and inside a generic wrapper): a body of the one must not be readable as the other.
+fn same_name_probe() -> Vec<Finding> {
+    let mut f = Vec::new();
+    let (msg, wrapped) = {
+        #[derive(Debug, Clone, PartialEq)]
+        struct Same(u64);
+        impl MessageBody for Same {
+            fn byte_len(&self) -> usize {
+                8
+            }
+        }
+        (Message::default().with_content(Same(0x4048_0000_0000_0000)), Message::default().with_content(Some(Same(7))))
+    };
+    {
+        #[derive(Debug, Clone, PartialEq)]
+        struct Same(f64);
+        impl MessageBody for Same {
+            fn byte_len(&self) -> usize {
+                8
+            }
+        }
+        if msg.can_cast::<Same>() || msg.try_content::<Same>().is_some() {
+            f.push(("foreign-type-accepted", "a body is readable as a different type that has the same type name (same-named items in two block scopes)".to_string()));
+        }
+        if wrapped.can_cast::<Option<Same>>() || wrapped.try_content::<Option<Same>>().is_some() {
+            f.push(("foreign-type-accepted", "a body Option<T> is readable as Option<U> where U is a different type with the same type name as T".to_string()));
+        }
+        match msg.try_cast::<Same>() {
+            Ok(_) => f.push(("foreign-type-accepted", "try_cast succeeded for a different type that has the same type name".to_string())),
+            Err(m) => {
+                if m.length() != HEADER + 8 {
+                    f.push(("failed-cast-damaged", "a failed cast returned a message with another length".to_string()));
+                }
+            }
+        }
+    }
+    f
+}
+
 pub fn cmd(args: &Args) -> Report {
     let mut rep = Report::new("C16");
     let mut rng = Rng::new(args.stream_seed("c16"));
@@ -672,6 +712,12 @@ pub fn cmd(args: &Args) -> Report {
                 break;
             }
         }
+        if i % 500 == 0 {
+            rep.count("same_named_type_probes", 1);
+            for (kind, detail) in same_name_probe().into_iter().take(1) {
+                rep.violation(&format!("C16/{kind}"), &detail, json!({"driver": "desmon", "sub": "c16", "same_name_probe": true}));
+            }
+        }
         if i % 2000 == 0 && !args.extra.contains_key("nochannel") {
             let (f, n) = channel_charge(&mut rng);
             rep.count("channel_transmissions_timed", n);
@@ -696,6 +742,13 @@ pub fn cmd(args: &Args) -> Report {
 }
 
 pub fn replay(v: &Value) -> i32 {
+    if v.get("same_name_probe").is_some() {
+        let f = same_name_probe();
+        for (k, d) in &f {
+            println!("VIOLATION reproduced: C16/{k}: {d}");
+        }
+        return i32::from(!f.is_empty());
+    }
     if v.get("channel_charge").is_some() {
         let mut rng = Rng::new(7);
         let (f, _) = channel_charge(&mut rng);
